@@ -84,6 +84,7 @@ func Run(A Matrix, b Vector, args ...interface{}) (Vector, error) {
     if n1, m1 := inSitu.A.Dims(); n1 != n || m1 != m {
       return nil, fmt.Errorf("r has invalid dimension (%dx%d instead of %dx%d)", n1, m1, n, m)
     }
+    inSitu.A.Set(A)
   }
   if inSitu.X == nil {
     inSitu.X = NullDenseVector(t, n)
